@@ -332,6 +332,13 @@ def run(ctx):
              'tables are fitted in sequence in one process and include nearly (anti-)monotone tables (|tau| 0.98..0.994) and a pair of '
              'tables whose taus agree to 4 decimals')
     calibration_search(ctx, ds, n_random)
+    try:      # round 6 (always, also after a broken translation): refusals are repeatable and leave a consistent object; ambient conditions
+        from .. import extra_oracles3
+        extra_oracles3.biv_refused_refit(ctx)
+        extra_oracles3.biv_fit_ambient(ctx)
+    except Exception as ex:
+        ctx.obligation('oracle:extra:raised', False, 'correspondence', repr(ex))
+        ctx.violation('oracle:extra:raised:' + type(ex).__name__, 'round-6 oracle raised ' + repr(ex), {'repro': '# see tools/vf/extra_oracles3.py'})
     if bad:
         return
     exprs, meta = [], []
